@@ -353,3 +353,8 @@ def run(F, rep):
     # ------------------------------------------------------------------ Q: late requalification of variable-based constants
     import requalify
     requalify.rule_requalify(F, rep, 'C03.Q1', 'C03.Q2')
+
+    # ------------------------------------------------------------------ clauses shared with C08: the scaling factor itself (Units::scalingFactor is what the analyser and the generator insert)
+    import core
+    import c08
+    c08.run(F, core.Borrowed(rep, only={'C08.M1', 'C08.M3'}))
